@@ -1,66 +1,112 @@
-(* C11: piecewise-linear interpolation (jnp.interp) over Q: between neighbours, knots, affine segments *)
-From Coq Require Import QArith Lqa List Lia.
+(* C11 model: TrainableDist.apply_delay, linear branches (rex/base.py), over Q.
+   - [interp]  : jnp.interp(x, xp, fp) on non-decreasing knots xp (piecewise linear, clamped at both ends; among equal
+                 knots the last one is the left neighbour, except that the left neighbour is never the final knot) --
+                 exactly what `i = clip(searchsorted(xp, x, side='right'), 1, n-1)` followed by the dx == 0 guard and
+                 the left/right clamps computes;
+   - [apply_linear] : delayed arrival times, first-not-yet-arrived index, clamped dynamic_slice, linear_real_only mask,
+                 shifted query times, one interpolation per query and leaf;
+   - [trunc]   : the dtype restoration `astype(int32)` of integer leaves (rounds toward zero);
+   - [zoh]     : the zero-order-hold branch on the same slice (for the coincidence clause).
+   Proofs are in InterpLaws.v. *)
+From Coq Require Import QArith ZArith List Bool.
+From Rex Require Import Ops.
 Import ListNotations.
 Open Scope Q_scope.
 
-Definition seg (x0 y0 x1 y1 x : Q) : Q := y0 + (x - x0) * (y1 - y0) / (x1 - x0).
+(* ---- scalar kernels, carrier-generic: regenerated from the source by tools/kt_interp.py and tied in Ties/InterpTie.v ---- *)
+Section K.
+Context {A : Type} (O : ops A).
+(* TrainableDist.sample: self.min + self.alpha * (self.max - self.min) *)
+Definition k_delay (mn mx alpha : A) : A := oadd O mn (omul O alpha (osub O mx mn)).
+(* ts_recv = where(seq < 0, input.ts_recv, input.ts_sent + d) *)
+Definition k_recv (seq : Z) (sent recv d : A) : A := if (seq <? 0)%Z then recv else oadd O sent d.
+(* ts_recv_mask = where(seq < 0, -1e9, ts_recv)   (linear_real_only)  |  ts_recv  (linear) *)
+Definition k_mask (real_only : bool) (seq : Z) (r : A) : A :=
+  if real_only && (seq <? 0)%Z then oopp O (oz O 1000000000) else r.
+(* ts_recv_interp + (ts_start - ts_recv_interp[-1]) *)
+Definition k_query (r t lst : A) : A := oadd O r (osub O t lst).
+End K.
+(* idx_min = idx_max - window ; window = cum_window - window_delayed *)
+Definition k_idx_min (idx_max window : Z) : Z := (idx_max - window)%Z.
+Definition k_window (cum_window window_delayed : Z) : Z := (cum_window - window_delayed)%Z.
 
-(* jnp.interp(x, xp, fp) for increasing xp: clamped at both ends *)
+(* ---- the executable model over Q ---- *)
+Definition Qltb (x y : Q) : bool := negb (Qle_bool y x).
+
+Definition seg (x0 y0 x1 y1 x : Q) : Q := y0 + ((x - x0) / (x1 - x0)) * (y1 - y0).
+
 Fixpoint interp (x : Q) (pts : list (Q * Q)) : Q :=
   match pts with
   | [] => 0
   | (x0, y0) :: rest =>
       match rest with
       | [] => y0
-      | (x1, y1) :: _ => if Qle_bool x x0 then y0 else if Qle_bool x x1 then seg x0 y0 x1 y1 x else interp x rest
+      | (x1, y1) :: rest' =>
+          if Qltb x x0 then y0                                     (* left clamp: fp[0] *)
+          else if Qltb x x1 then seg x0 y0 x1 y1 x                 (* x0 <= x < x1 *)
+          else match rest' with
+               | [] => if Qltb x1 x then y1                        (* right clamp: fp[-1] *)
+                       else if Qeq_bool x0 x1 then y0              (* dx == 0: fp[i-1] *)
+                       else seg x0 y0 x1 y1 x                      (* x == x1: the last segment at its right end *)
+               | _ => interp x rest
+               end
       end
   end.
 
-Lemma seg_left x0 y0 x1 y1 : x0 < x1 -> seg x0 y0 x1 y1 x0 == y0.
-Proof. intros H. unfold seg. field. lra. Qed.
-Lemma seg_right x0 y0 x1 y1 : x0 < x1 -> seg x0 y0 x1 y1 x1 == y1.
-Proof. intros H. unfold seg. field. lra. Qed.
+Record ent := { e_seq : Z; e_sent : Q; e_recv : Q }.
 
-(* every interpolated value lies between its neighbouring messages *)
-Lemma seg_between x0 y0 x1 y1 x : x0 < x1 -> x0 <= x <= x1 -> y0 <= y1 -> y0 <= seg x0 y0 x1 y1 x <= y1.
-Proof.
-  intros H Hx Hy. unfold seg.
-  assert (E : y0 + (x - x0) * (y1 - y0) / (x1 - x0) == y0 + ((x - x0) / (x1 - x0)) * (y1 - y0)) by (field; lra).
-  rewrite E. set (a := (x - x0) / (x1 - x0)).
-  assert (Ha : 0 <= a <= 1).
-  { unfold a. split.
-    - apply Qle_shift_div_l; lra.
-    - apply Qle_shift_div_r; lra. }
-  destruct Ha. split; nra.
-Qed.
+Definition delay (mn mx alpha : Q) : Q := mn + alpha * (mx - mn).
+Definition recv_d (d : Q) (e : ent) : Q := if (e_seq e <? 0)%Z then e_recv e else e_sent e + d.
+Definition BIG : Q := 1000000000 # 1.
+Definition mask (real_only : bool) (d : Q) (e : ent) : Q := if real_only && (e_seq e <? 0)%Z then - BIG else recv_d d e.
 
-(* on a segment the value is affine in the query point: the derivative w.r.t. the delay is minus the segment slope *)
-Lemma seg_affine x0 y0 x1 y1 x x' : x0 < x1 ->
-  seg x0 y0 x1 y1 x' - seg x0 y0 x1 y1 x == (x' - x) * ((y1 - y0) / (x1 - x0)).
-Proof. intros H. unfold seg. field. lra. Qed.
+(* jnp.argwhere(ts_recv > ts_start, size=1, fill_value=cum_window)[0, 0] *)
+Fixpoint first_gt (t : Q) (l : list Q) : nat :=
+  match l with [] => 0%nat | r :: l => if Qltb t r then 0%nat else S (first_gt t l) end.
+(* jax.lax.dynamic_slice(a, [idx_min], [w]) with idx_min = idx_max - w: a negative start index is first taken relative to
+   the end (i + n, as in numpy indexing), then the start is clamped into [0, n - w].  Hence fewer than w arrived entries
+   (idx_max < w) select the LAST w entries of the extended window, not the first w. *)
+Definition dyn_start (idx_max w n : nat) : nat :=
+  let i := (Z.of_nat idx_max - Z.of_nat w)%Z in
+  let i := if (i <? 0)%Z then (i + Z.of_nat n)%Z else i in
+  Z.to_nat (Z.max 0 (Z.min i (Z.of_nat n - Z.of_nat w))).
+Definition slice {X} (s w : nat) (l : list X) : list X := firstn w (skipn s l).
 
-(* continuity: Lipschitz with the segment slope *)
-Lemma seg_lipschitz x0 y0 x1 y1 x x' : x0 < x1 -> y0 <= y1 -> x <= x' ->
-  seg x0 y0 x1 y1 x' - seg x0 y0 x1 y1 x <= (x' - x) * ((y1 - y0) / (x1 - x0)).
-Proof. intros. rewrite seg_affine by assumption. lra. Qed.
+Definition start (d t : Q) (w : nat) (es : list ent) : nat :=
+  dyn_start (first_gt t (map (recv_d d) es)) w (length es).
+Definition queries (ro : bool) (d t : Q) (w : nat) (es : list ent) : list Q :=
+  let sl := slice (start d t w es) w (map (mask ro d) es) in
+  map (fun r => r + (t - last sl 0)) sl.
+Definition knots (ro : bool) (d : Q) (es : list ent) (fp : list Q) : list (Q * Q) := combine (map (mask ro d) es) fp.
+(* one leaf (one scalar component of one leaf): window values, oldest first *)
+Definition apply_linear (ro : bool) (d t : Q) (w : nat) (es : list ent) (fp : list Q) : list Q :=
+  map (fun x => interp x (knots ro d es fp)) (queries ro d t w es).
+(* res.astype(int32): round toward zero *)
+Definition trunc (q : Q) : Z := Z.quot (Qnum q) (Z.pos (Qden q)).
+(* the zero-order-hold branch returns the sliced entries themselves *)
+Definition zoh (d t : Q) (w : nat) (es : list ent) (fp : list Q) : list Q := slice (start d t w es) w fp.
 
-(* at a knot the interpolation returns the message itself: coincides with zero-order hold there *)
-Lemma interp_at_first_knot x0 y0 rest : interp x0 ((x0, y0) :: rest) == y0.
-Proof.
-  simpl. destruct rest as [|[x1 y1] r]; [reflexivity|].
-  assert (H : Qle_bool x0 x0 = true) by (apply Qle_bool_iff; lra). rewrite H. reflexivity.
-Qed.
-Lemma interp_clamp_left x x0 y0 rest : x <= x0 -> interp x ((x0, y0) :: rest) == y0.
-Proof.
-  intros Hx. simpl. destruct rest as [|[x1 y1] r]; [reflexivity|].
-  assert (H : Qle_bool x x0 = true) by (apply Qle_bool_iff; exact Hx). rewrite H. reflexivity.
-Qed.
-Lemma interp_in_first_segment x x0 y0 x1 y1 rest : x0 < x -> x <= x1 ->
-  interp x ((x0, y0) :: (x1, y1) :: rest) == seg x0 y0 x1 y1 x.
-Proof.
-  intros H0 H1. simpl.
-  assert (A : Qle_bool x x0 = false).
-  { destruct (Qle_bool x x0) eqn:E; [|reflexivity]. apply Qle_bool_iff in E. lra. }
-  assert (B : Qle_bool x x1 = true) by (apply Qle_bool_iff; exact H1). rewrite A, B. reflexivity.
-Qed.
-Print Assumptions seg_between.
+(* the sender's signal: piecewise linear through (ts_sent_i, y_i) *)
+Definition signal (es : list ent) (fp : list Q) : list (Q * Q) := combine (map e_sent es) fp.
+Definition shift (d : Q) (pts : list (Q * Q)) : list (Q * Q) := map (fun p => (fst p + d, snd p)) pts.
+
+(* well-formedness of knot lists *)
+Fixpoint nondec (pts : list (Q * Q)) : Prop :=
+  match pts with
+  | (x0, _) :: rest => match rest with (x1, _) :: _ => x0 <= x1 /\ nondec rest | [] => True end
+  | [] => True end.
+Fixpoint incr (pts : list (Q * Q)) : Prop :=
+  match pts with
+  | (x0, _) :: rest => match rest with (x1, _) :: _ => x0 < x1 /\ incr rest | [] => True end
+  | [] => True end.
+(* non-decreasing knots whose finite-difference slopes are bounded by L *)
+Fixpoint lip (L : Q) (pts : list (Q * Q)) : Prop :=
+  match pts with
+  | (x0, y0) :: rest =>
+      match rest with
+      | (x1, y1) :: _ => x0 <= x1 /\ - (L * (x1 - x0)) <= y1 - y0 <= L * (x1 - x0) /\ lip L rest
+      | [] => True end
+  | [] => True end.
+Inductive adj {X : Type} : X -> X -> list X -> Prop :=
+| adj_here a b l : adj a b (a :: b :: l)
+| adj_later a b c l : adj a b l -> adj a b (c :: l).
